@@ -146,9 +146,9 @@ def translate_v(st, va, ispriv, iswrite, wasaligned, rd):
 
 # ------------------------------------------------------------------------------------------------ Long-descriptor format
 
-def mair_type(st, index):
-    """MAIRDecode: memory type (and whether it is architecturally defined) for AttrIndx"""
-    mair = (st['mair1'] << 32) | st['mair0']
+def mair_type(st, index, hyp=False):
+    """MAIRDecode: memory type (and whether it is architecturally defined) for AttrIndx (HMAIR0/1 in Hyp mode)"""
+    mair = ((st['hmair1'] << 32) | st['hmair0']) if hyp else ((st['mair1'] << 32) | st['mair0'])
     field = (mair >> (8 * index)) & 0xFF
     hi, lo = bits(field, 7, 4), bits(field, 3, 0)
     transient_form = lor(bits(field, 7, 6) == 0, land(bits(field, 7, 6) == 1, bits(field, 5, 4) != 0))
@@ -160,26 +160,35 @@ def mair_type(st, index):
     return t, defined
 
 
-def walk_ld(st, ia, rd8):
-    """stage-1 Long-descriptor walk outside Hyp mode (TTBCR.EAE == 1), input address ia (32 bits).
+def walk_ld(st, ia, rd8, hyp=False):
+    """stage-1 Long-descriptor walk, input address ia (32 bits): outside Hyp mode (TTBCR.EAE == 1; TTBR0/TTBR1, SCTLR.EE) or,
+    with hyp=True, the Hyp-mode walk (HTCR.T0SZ, HTTBR only, HSCTLR.EE, Non-secure lookup).
     rd8(pa) = 64-bit little-endian doubleword at physical address pa"""
-    ttbcr = st['ttbcr']
-    t0, t1 = bits(ttbcr, 2, 0), bits(ttbcr, 18, 16)
-    in0 = lor(t0 == 0, (ia >> (32 - t0)) == 0)
-    top1 = ia >> (32 - t1)
-    in1 = ite(t1 == 0, lnot(in0), top1 == ((1 << t1) - 1))
-    base_found = lor(in0, in1)
-    use1 = in1                                   # the TTBR1 test comes second and overrides
-    tsz = ite(use1, t1, t0)
-    ttbr = ite(use1, st['ttbr1_64'], st['ttbr0_64'])
-    disabled = ite(use1, bit(ttbcr, 23) == 1, bit(ttbcr, 7) == 1)           # EPD1 / EPD0
+    if hyp:
+        t0 = bits(st['htcr'], 2, 0)
+        in0 = lor(t0 == 0, (ia >> (32 - t0)) == 0)
+        base_found = in0
+        tsz = t0
+        ttbr = st['httbr']
+        disabled = False
+    else:
+        ttbcr = st['ttbcr']
+        t0, t1 = bits(ttbcr, 2, 0), bits(ttbcr, 18, 16)
+        in0 = lor(t0 == 0, (ia >> (32 - t0)) == 0)
+        top1 = ia >> (32 - t1)
+        in1 = ite(t1 == 0, lnot(in0), top1 == ((1 << t1) - 1))
+        base_found = lor(in0, in1)
+        use1 = in1                                   # the TTBR1 test comes second and overrides
+        tsz = ite(use1, t1, t0)
+        ttbr = ite(use1, st['ttbr1_64'], st['ttbr0_64'])
+        disabled = ite(use1, bit(ttbcr, 23) == 1, bit(ttbcr, 7) == 1)           # EPD1 / EPD0
     level0 = ite(bits(tsz, 2, 1) == 0, 1, 2)
     lower = 9 * level0 - tsz - 4
     base0 = (bits(ttbr, 39, 0) >> lower) << lower
     unpred = land(base_found, ((ttbr & ((1 << lower) - 1)) >> 3) != 0)
     start_bit = 31 - tsz
-    ee = bit(st['sctlr'], 25) == 1
-    secure0 = lor(lnot(st['cfg.have_security_ext']), bit(st['scr'], 0) == 0, bits(st['cpsr'], 4, 0) == 0b10110)
+    ee = bit(st['hsctlr' if hyp else 'sctlr'], 25) == 1
+    secure0 = False if hyp else lor(lnot(st['cfg.have_security_ext']), bit(st['scr'], 0) == 0, bits(st['cpsr'], 4, 0) == 0b10110)
     from .prims import BigEndianReverse
     kind = ite(lor(lnot(base_found), disabled), TRANSLATION, NONE)
     flt_level = 1
@@ -235,22 +244,33 @@ def walk_ld(st, ia, rd8):
     af_fault = land(kind == NONE, bit(attrs, 8) == 0)
     kind = ite(af_fault, ACCESS_FLAG, kind)
     flt_level = ite(af_fault, final_level, flt_level)
+    if hyp:
+        # Hyp mode translation regime: AP<1> must be 1, PXN and nG must be 0, APTable<0> and PXNTable of every table must be 0
+        unpred = lor(unpred, land(kind == NONE, lor(bit(attrs, 4) != 1, lnot(table_user), bit(attrs, 11) != 0, table_pxn, bit(attrs, 9) != 0)))
     return dict(kind=kind, level=ite(kind == NONE, final_level, flt_level), pa=out_addr & ((1 << 40) - 1), attrs=attrs,
                 ap=(bits(attrs, 5, 4) << 1) | 1, xn=bit(attrs, 12), pxn=bit(attrs, 11), ng=bit(attrs, 9), ns=bit(attrs, 3),
                 attrindx=bits(attrs, 2, 0), sh=bits(attrs, 7, 6), unpred=unpred)
 
 
-def translate_v_ld(st, va, ispriv, iswrite, wasaligned, rd8):
-    """TranslateAddressV, stage 1, Long-descriptor format (TTBCR.EAE == 1, not Hyp mode, no Virtualization Extensions)"""
+def translate_v_ld(st, va, ispriv, iswrite, wasaligned, rd8, hyp=False):
+    """TranslateAddressV, stage 1, Long-descriptor format: TTBCR.EAE == 1 outside Hyp mode (stage 2 inactive), or the Hyp-mode
+    regime (hyp=True, HSCTLR.M == 1)"""
     mva = fcse_translate(va, st['fcseidr'])
-    w = walk_ld(st, mva, rd8)
-    mtype, defined = mair_type(st, w['attrindx'])
+    w = walk_ld(st, mva, rd8, hyp)
+    mtype, defined = mair_type(st, w['attrindx'], hyp)
     walk_ok = w['kind'] == NONE
     align = land(lnot(wasaligned), mtype != NORMAL)
     afe = bit(st['sctlr'], 29) == 1
     perm_abort, perm_unpred = check_permission_abort(w['ap'], ispriv, iswrite, afe, True)
     kind = first([(lnot(walk_ok), w['kind']), (align, ALIGNMENT), (perm_abort, PERMISSION)], NONE)
-    unpred = lor(w['unpred'], land(walk_ok, lor(align, perm_unpred)))
+    virt = st['cfg.have_virt_ext']
+    # (without the Virtualization Extensions an unaligned access to Device / Strongly-ordered memory never reaches the translation)
+    unpred = lor(w['unpred'], land(walk_ok, lor(land(lnot(virt), align), perm_unpred)))
+    # an IMPLEMENTATION DEFINED MAIR encoding leaves the memory type, hence the alignment decision, open
+    unpred = lor(unpred, land(walk_ok, lnot(wasaligned), lnot(defined)))
+    if not hyp:
+        secure = lor(lnot(st['cfg.have_security_ext']), bit(st['scr'], 0) == 0, bits(st['cpsr'], 4, 0) == 0b10110)
+        unpred = lor(unpred, land(virt, lnot(secure), bit(st['hcr'], 27) == 1))          # HCR.TGE with the stage 1 MMU on
     shareable = ite(mtype == NORMAL, bit(w['sh'], 1) == 1, True)
     outershareable = ite(mtype == NORMAL, w['sh'] == 2, True)
     return dict(kind=kind, level=w['level'], pa=w['pa'], ns=w['ns'], mtype=mtype, type_defined=defined, shareable=shareable,
